@@ -558,7 +558,7 @@ Section C10.
   Qed.
 
   Lemma cretr1_master cfg j lk rv cur s2 st' :
-    r_link j = lk -> c_requeue_retr_checks_head cfg = true -> jfacts j s2 -> cinv s2 ->
+    r_link j = lk -> c_requeue_retr_checks_head cfg = true -> jfacts j s2 -> cinv s2 -> x_failed s2 = None ->
     jm (x_unords s2) j = true -> fst (r_base j) = x_next s2 -> x_parsing_done s2 = false ->
     d_off (r_cur j) <= d_off cur ->
     (rv <> MORE -> rv = blk_status O (fst (r_base j)) /\ cur = blk_end O (fst (r_base j))) ->
@@ -574,12 +574,12 @@ Section C10.
                    end))) = Some st' ->
     cinv st'.
   Proof.
-    intros ELK CR (I2 & J2 & L2 & B2 & M2) C2 JM BN PD Hoff EV H. subst lk. rewrite JM in B2. simpl in B2.
+    intros ELK CR (I2 & J2 & L2 & B2 & M2) C2 NF JM BN PD Hoff EV H. subst lk. rewrite JM in B2. simpl in B2.
     assert (M0 : masters s2 = 0%nat) by lia. assert (N0 : nparse s2 = 0%nat) by lia.
     assert (T0 : x_parse_token s2 = false) by (destruct (x_parse_token s2); simpl in B2; auto; exfalso; lia).
     specialize (M2 JM). assert (HD : x_head_offs s2 <= d_off cur) by lia.
     destruct (inv_advance cfg cur s2 I2 M0 HD) as (I3 & M3 & H3a & H3b & ST & RP).
-    pose proof (cparts_advance cfg cur s2 I2 M0 HD (cparts_of _ C2)) as P3.
+    pose proof (cparts_advance cfg cur s2 I2 M0 HD (cparts_of _ NF C2)) as P3.
     assert (V3 : cview0 s2 (advance cfg cur s2)).
     { constructor; unfold pnext, nparse in *; autorewrite with xf; auto. rewrite T0, N0. simpl. reflexivity. }
     assert (PB3 : x_parser_bs (advance cfg cur s2) = cur) by (unfold advance; autorewrite with xf; xs; reflexivity).
@@ -637,7 +637,7 @@ Section C10.
   Qed.
 
   Lemma cretr1_spec cfg j id rv cur s2 st' :
-    c_requeue_retr_checks_head cfg = true -> jfacts j s2 -> cinv s2 -> r_link j = Some id ->
+    c_requeue_retr_checks_head cfg = true -> jfacts j s2 -> cinv s2 -> x_failed s2 = None -> r_link j = Some id ->
     (jm (x_unords s2) j = true -> fst (r_base j) = x_next s2) ->
     (forall u, In u (x_unords s2) -> u_id u = id -> u_complete u = false) ->
     dbs_ok cur = true -> d_bit (r_cur j) <= d_bit cur ->
@@ -651,10 +651,10 @@ Section C10.
                   (set_unords (upd_unord id (fun u => u_set_complete (u_set_end cur u)) (x_unords st)) st))) = Some st' ->
     cinv st'.
   Proof.
-    intros CR (I2 & J2 & L2 & B2 & M2) C2 EL BN INC Hok Hbit EV H.
+    intros CR (I2 & J2 & L2 & B2 & M2) C2 NF EL BN INC Hok Hbit EV H.
     pose proof (L2 id EL) as Z2. destruct J2 as (J1 & J2' & J3 & J4 & J5).
     assert (UB : forall u, In u (x_unords s2) -> u_id u = id -> u_base u = r_base j) by (intros u Hu Hid; apply (J5 id u EL Hu Hid)).
-    destruct (cparts_of _ C2) as (Pm & Pu & Pn).
+    destruct (cparts_of _ NF C2) as (Pm & Pu & Pn).
     (* the store after `end_pos = curr_pos` *)
     set (us1 := upd_unord id (u_set_end cur) (x_unords s2)).
     assert (P1 : cparts (set_unords us1 s2)).
@@ -719,11 +719,12 @@ Section C10.
   Proof. intros (A & B & C). split; [|split]; unfold all_jobs, give_unit in *; xs; auto. Qed.
 
   Lemma cinv_retr1 cfg j att rv cur st st' :
-    cfg_safe cfg -> inv st -> cinv st -> ev_ok O st (EvRetr1 j att rv cur) ->
+    cfg_safe cfg -> x_failed st = None -> inv st -> cinv st -> ev_ok O st (EvRetr1 j att rv cur) ->
     retr1 cfg j att rv cur st = Some st' -> cinv st'.
   Proof.
-    intros (CS & CJ & CR) I C EV H. unfold retr1 in H. simpl in EV.
+    intros (CS & CJ & CR) NF0 I C EV H. unfold retr1 in H. simpl in EV.
     destruct (del_run (CRetr j att) st) as [s1|] eqn:D; [|discriminate].
+    assert (NF1 : x_failed s1 = None) by (destruct (del_run_spec _ _ _ D) as (? & ? & ? & ->); xs; auto).
     assert (F1 : jfacts j s1) by (apply (inv_del_retr _ _ _ _ D I)).
     destruct (cinv_del_retr _ _ _ _ D C) as (C1 & BN1). clear I C D.
     set (aend := att_end att s1) in *. clearbody aend.
@@ -731,7 +732,8 @@ Section C10.
     assert (F2 : jfacts j (detach att s1)) by (eapply jfacts_view; [apply view_detach|auto]).
     assert (C2 : cinv (detach att s1)) by (eapply cinv_cview; [apply cview_detach|auto]).
     assert (BN2 : jm (x_unords (detach att s1)) j = true -> fst (r_base j) = x_next (detach att s1)) by (autorewrite with xf; exact BN1).
-    clear F1 C1 BN1. set (s2 := detach att s1) in *. clearbody s2. clear s1.
+    assert (NF : x_failed (detach att s1) = None) by (autorewrite with xf; auto).
+    clear F1 C1 BN1 NF1. set (s2 := detach att s1) in *. clearbody s2. clear s1.
     bool_hyps.
     assert (Hok : dbs_ok cur = true) by assumption.
     assert (Hbit : d_bit (r_cur j) <= d_bit cur) by (apply N.leb_le; assumption).
@@ -743,28 +745,28 @@ Section C10.
       - destruct (c_retr_done_drops_link cfg); [apply V0|cview0_tac].
       - apply cparts_give_unit. destruct (c_retr_done_drops_link cfg); [|apply cparts_of; auto].
         apply cparts_drop_link; auto; [apply cparts_of; auto|].
-        intros u0 Hin0 _ _ Q. exfalso. destruct C2 as [_ _ _ Cn _ _ _]. specialize (Cn PD). rewrite Forall_forall in Cn.
+        intros u0 Hin0 _ _ Q. exfalso. destruct C2 as [_ _ _ Cn _ _ _]. specialize (Cn NF PD). rewrite Forall_forall in Cn.
         rewrite (Cn u0 Hin0) in Q. discriminate. }
     destruct (link_state (r_link j) s2) as [u|] eqn:LS.
     - destruct (link_state_spec _ _ _ LS) as (id & EL & Hu & Hid). rewrite EL in H. cbn [andb negb orb] in H.
       destruct (u_complete u) eqn:UC; cbn [andb negb orb] in H.
       + destruct (u_legit u) eqn:UL; cbn [andb negb orb] in H.
         * assert (JM : jm (x_unords s2) j = true) by (eapply jm_of_link_state; eauto).
-          eapply (cretr1_master cfg j (Some id) rv cur s2 st' EL CR F2 C2 JM (BN2 JM) PD Hoff EV). exact H.
+          eapply (cretr1_master cfg j (Some id) rv cur s2 st' EL CR F2 C2 NF JM (BN2 JM) PD Hoff EV). exact H.
         * inversion H; subst. eapply cinv_parts; [exact C2| |].
           -- destruct (c_retr_abort_drops_link cfg); [apply (V0 (drop_link (Some (u_id u)) (x_unords s2)))|cview0_tac].
           -- apply cparts_give_unit. destruct (c_retr_abort_drops_link cfg); [|apply cparts_of; auto].
-             refine (cparts_drop_link (Some (u_id u)) s2 I2 (cparts_of _ C2) _).
+             refine (cparts_drop_link (Some (u_id u)) s2 I2 (cparts_of _ NF C2) _).
              intros u0 Hin0 L C0 _. exfalso. inversion L.
              assert (u0 = u) by (apply (nodup_id_unique (x_unords s2)); auto; apply I2). congruence.
-      + eapply (cretr1_spec cfg j id rv cur s2 st' CR F2 C2 EL BN2); try exact H; auto.
+      + eapply (cretr1_spec cfg j id rv cur s2 st' CR F2 C2 NF EL BN2); try exact H; auto.
         intros u0 Hin0 E0. assert (u0 = u) by (apply (nodup_id_unique (x_unords s2)); auto; [apply I2|congruence]). congruence.
     - assert (EL : (exists id, r_link j = Some id) \/ r_link j = None) by (destruct (r_link j); eauto).
       destruct EL as [[id EL]|EL]; rewrite EL in H; cbn [andb negb orb] in H.
-      + eapply (cretr1_spec cfg j id rv cur s2 st' CR F2 C2 EL BN2); try exact H; auto.
+      + eapply (cretr1_spec cfg j id rv cur s2 st' CR F2 C2 NF EL BN2); try exact H; auto.
         intros u0 Hin0 E0. exfalso. unfold link_state in LS. rewrite EL in LS. eapply get_unord_none; eauto.
       + assert (JM : jm (x_unords s2) j = true) by (unfold jm; rewrite EL; reflexivity).
-        eapply (cretr1_master cfg j None rv cur s2 st' EL CR F2 C2 JM (BN2 JM) PD Hoff EV). exact H.
+        eapply (cretr1_master cfg j None rv cur s2 st' EL CR F2 C2 NF JM (BN2 JM) PD Hoff EV). exact H.
   Qed.
 
   (* ---- the parser ---------------------------------------------------------------------------- *)
@@ -899,5 +901,184 @@ Section C10.
           rewrite Forall_forall in B. destruct (u_id v0 =? u_id u); [simpl in Qv; discriminate|auto].
         * intro K. specialize (C K). unfold upd_unord. apply Forall_forall. intros v Hv. apply in_map_iff in Hv.
           destruct Hv as (v0 & <- & H0). rewrite Forall_forall in C. destruct (u_id v0 =? u_id u); simpl; auto.
+  Qed.
+
+  Lemma flush_noinq us : Forall (fun u => u_inq u = false) (flush_unords us).
+  Proof.
+    unfold flush_unords. apply Forall_forall. intros u Hu. apply in_map_iff in Hu. destruct Hu as (u0 & <- & H0).
+    destruct (u_inq u0) eqn:Q; auto.
+  Qed.
+
+  Lemma cparse_finish cfg g s :
+    inv s -> masters s = 0%nat -> nparse s = 0%nat -> x_failed s = None -> cparts s ->
+    Forall ejob_ok (x_emit_q s) -> Forall cont_ok (x_running s) -> Forall oblk_ok (x_reord_q s) ->
+    (forall L R, SeqDec O 0 0 L R -> exists l', L = x_written s ++ l' /\
+       if finish_eof_error (x_parser_bs s) g s then R = false else Rest (x_order_q s) true (x_par s) 0 l' R) ->
+    cinv (parse_finish cfg g s).
+  Proof.
+    intros I M0 N0 NF (Pm & Pu & Pn) Ce Cc Cr CS.
+    pose proof (inv_parse_finish cfg g s I M0 N0) as IR.
+    unfold parse_finish in *. unfold finish_eof_error in CS.
+    set (pb' := mkdbs _ _) in *.
+    match goal with |- cinv (if ?c then _ else _) => destruct c eqn:CK end.
+    - (* unexpected end of file *)
+      assert (CK' := CK). unfold pb' in CK'. xs in CK'. cbn [d_bit d_off] in CK'. rewrite CK' in CS. clear CK'.
+      constructor; unfold all_jobs, fail in *; xs; auto.
+      all: try discriminate.
+      all: try (intros L R SD; destruct (CS L R SD) as (l' & E & F); exists l'; auto).
+    - assert (CK' := CK). unfold pb' in CK'. xs in CK'. cbn [d_bit d_off] in CK'. rewrite CK' in CS. clear CK'.
+      match goal with |- cinv ?r => set (r0 := r) in * end.
+      assert (MR : masters r0 = 0%nat).
+      { pose proof (i_excl _ IR) as Ie. unfold masters.
+        assert (x_parse_token r0 = true) by (subst r0; destruct (c_finish_drops_link cfg); xs; autorewrite with xf; xs; reflexivity).
+        rewrite H in Ie. change (b2n true) with 1%nat in Ie. lia. }
+      assert (UR : Forall (fun u => u_inq u = false) (x_unords r0)).
+      { subst r0. destruct (c_finish_drops_link cfg); xs; autorewrite with xf; xs; apply flush_noinq. }
+      assert (ER : x_emit_q r0 = x_emit_q s /\ x_running r0 = x_running s /\ x_reord_q r0 = x_reord_q s /\
+                   x_written r0 = x_written s /\ x_failed r0 = x_failed s /\ x_order_q r0 = x_order_q s /\
+                   x_parsing_done r0 = true /\ x_par r0 = x_par s).
+      { subst r0. destruct (c_finish_drops_link cfg); xs; autorewrite with xf; xs; auto 10. }
+      destruct ER as (E1 & E2 & E3 & E4 & E5 & E6 & E7 & E8). clearbody r0.
+      constructor; rewrite ?E1, ?E2, ?E3; auto.
+      + rewrite E4, E5, E6, E7, E8, NF. intros L R SD. destruct (CS L R SD) as (l' & E & F). exists l'. split; auto.
+        eapply Rest_done_any; eauto.
+      + apply Forall_forall. intros j Hj J. rewrite (no_masters_jm r0 j MR Hj) in J. discriminate.
+      + eapply Forall_impl; [|exact UR]. simpl. intros u Q1 Q2. congruence.
+  Qed.
+
+  Lemma cinv_parse1 cfg att r st st' :
+    x_failed st = None -> inv st -> cinv st -> ev_ok O st (EvParse1 att r) -> parse1 cfg att r st = Some st' -> cinv st'.
+  Proof.
+    intros NF I C EV H. unfold parse1 in H.
+    destruct (del_run (CParse att) st) as [s1|] eqn:D; [|discriminate].
+    destruct (inv_del_parse _ _ _ D I) as (I1 & M1 & N1 & T1 & PD1).
+    destruct (del_run_spec _ _ _ D) as (l1 & l2 & E & ES1).
+    assert (PN0 : pnext st = d_bit (x_parser_bs st)).
+    { unfold pnext, nparse. rewrite E, filter_len_app. simpl.
+      replace (length (filter is_parse l1) + S (length (filter is_parse l2)) =? 0)%nat with false by (symmetry; apply Nat.eqb_neq; lia).
+      rewrite orb_true_r. reflexivity. }
+    destruct (cparts_of _ NF C) as (Pm & Pu & Pn). destruct C as [Cs _ _ _ Ce Cc Cr]. rewrite PN0 in Cs.
+    rewrite E in Cc. apply Forall_del in Cc. destruct Cc as [Cc _].
+    set (p0 := d_bit (x_parser_bs st)) in *. set (ps0 := x_par st) in *.
+    assert (F1 : x_failed s1 = None /\ x_emit_q s1 = x_emit_q st /\ x_running s1 = l1 ++ l2 /\ x_reord_q s1 = x_reord_q st /\
+                 x_parser_bs s1 = x_parser_bs st /\ x_par s1 = ps0 /\ x_tail_offs s1 = x_tail_offs st /\ x_eof_missing s1 = x_eof_missing st)
+      by (subst s1; xs; auto 10).
+    assert (CS1 : CSq p0 s1) by (eapply CSq_ext; [| | | | |exact Cs]; subst s1; xs; auto).
+    assert (P1 : cparts s1).
+    { subst s1. split; [|split]; unfold all_jobs in *; xs; auto. rewrite E in Pm. rewrite !run_jobs_app in *. exact Pm. }
+    clear Cs Pm Pu Pn I D ES1 E. destruct F1 as (NF1 & EQ1 & RU1 & RO1 & PB1 & PA1 & TL1 & EM1).
+    set (aend := att_end att s1) in *. clearbody aend.
+    match type of H with (if ?c then _ else _) = _ => destruct c eqn:CC; [|discriminate] end. bool_hyps.
+    assert (I2 : inv (detach att s1)) by (eapply inv_view; [apply view_detach|auto]).
+    assert (P2 : cparts (detach att s1)).
+    { destruct P1 as (A & B & C). split; [|split]; unfold all_jobs in *; autorewrite with xf; auto. }
+    assert (CS2 : CSq p0 (detach att s1)) by (eapply CSq_ext; [| | | | |exact CS1]; autorewrite with xf; auto).
+    assert (E2 : masters (detach att s1) = 0%nat /\ nparse (detach att s1) = 0%nat /\ x_parse_token (detach att s1) = false /\
+                 x_parsing_done (detach att s1) = false /\ x_parser_bs (detach att s1) = x_parser_bs st /\
+                 x_failed (detach att s1) = None /\ x_emit_q (detach att s1) = x_emit_q st /\ x_running (detach att s1) = l1 ++ l2 /\
+                 x_reord_q (detach att s1) = x_reord_q st /\ x_par (detach att s1) = ps0 /\
+                 x_tail_offs (detach att s1) = x_tail_offs st /\ x_eof_missing (detach att s1) = x_eof_missing st)
+      by (unfold masters, all_jobs, nparse in *; autorewrite with xf; auto 15).
+    set (s2 := detach att s1) in *. destruct E2 as (M2 & N2 & T2 & PD2 & PB2 & NF2 & EQ2 & RU2 & RO2 & PA2 & TL2 & EM2).
+    clearbody s2. clear I1 P1 CS1.
+    assert (HD : x_head_offs s2 <= d_off (res_bs r)).
+    { assert (x_head_offs s2 <= d_off (x_parser_bs s2)) by (apply I2; auto). rewrite PB2 in *.
+      match goal with K : (d_off (x_parser_bs s1) <=? d_off (res_bs r)) = true |- _ => apply N.leb_le in K; rewrite PB1 in K end. lia. }
+    destruct (inv_advance cfg (res_bs r) s2 I2 M2 HD) as (I3 & M3 & H3a & H3b & ST & RP).
+    pose proof (cparts_advance cfg (res_bs r) s2 I2 M2 HD P2) as P3.
+    assert (CS3 : CSq p0 (advance cfg (res_bs r) s2)) by (eapply CSq_ext; [| | | | |exact CS2]; autorewrite with xf; auto).
+    assert (E3 : nparse (advance cfg (res_bs r) s2) = 0%nat /\ x_parse_token (advance cfg (res_bs r) s2) = false /\
+                 x_parsing_done (advance cfg (res_bs r) s2) = false /\ x_failed (advance cfg (res_bs r) s2) = None /\
+                 x_emit_q (advance cfg (res_bs r) s2) = x_emit_q st /\ x_running (advance cfg (res_bs r) s2) = l1 ++ l2 /\
+                 x_reord_q (advance cfg (res_bs r) s2) = x_reord_q st /\ x_par (advance cfg (res_bs r) s2) = ps0 /\
+                 x_tail_offs (advance cfg (res_bs r) s2) = x_tail_offs st /\ x_eof_missing (advance cfg (res_bs r) s2) = x_eof_missing st)
+      by (unfold nparse in *; autorewrite with xf; auto 15).
+    assert (PB3 : x_parser_bs (advance cfg (res_bs r) s2) = res_bs r) by (unfold advance; autorewrite with xf; xs; reflexivity).
+    set (s3 := advance cfg (res_bs r) s2) in *.
+    destruct E3 as (N3 & T3 & PD3 & NF3 & EQ3 & RU3 & RO3 & PA3 & TL3 & EM3). clearbody s3.
+    assert (Ce3 : Forall ejob_ok (x_emit_q s3)) by (rewrite EQ3; auto).
+    assert (Cc3 : Forall cont_ok (x_running s3)) by (rewrite RU3; auto).
+    assert (Cr3 : Forall oblk_ok (x_reord_q s3)) by (rewrite RO3; auto).
+    destruct r as [bs ps|bs g|bs code|bs ps lv crc]; simpl res_bs in *; simpl in EV; fold p0 ps0 in EV.
+    - (* MORE *)
+      match type of H with (if ?c then _ else _) = _ => destruct c; [|discriminate] end. inversion H; subst st'. clear H.
+      eapply (cinv_build _ (d_bit bs)); [| | |xs; auto|xs; auto|xs; auto].
+      + intros L R SD. destruct (CS3 L R SD) as (l' & EL & RS). exists l'. xs. split; auto.
+        rewrite NF3, PA3 in *. eapply Rest_more; eauto.
+      + unfold pnext. xs. simpl. rewrite PB3. reflexivity.
+      + destruct P3 as (A & B & C). split; [|split]; unfold all_jobs in *; xs; auto.
+    - (* FINISH *)
+      match type of H with (if ?c then _ else _) = _ => destruct c; [|discriminate] end. inversion H; subst st'. clear H.
+      apply cparse_finish; auto.
+      intros L R SD. destruct (CS3 L R SD) as (l' & EL & RS). exists l'. split; auto. rewrite NF3, PD3, PA3 in RS.
+      assert (FE : finish_eof_error (x_parser_bs s3) g s3 = finish_eof_error bs g st).
+      { unfold finish_eof_error. rewrite PB3, TL3, EM3. reflexivity. }
+      rewrite FE. pose proof (Rest_finish _ _ _ _ _ _ EV RS) as RF.
+      destruct (finish_eof_error bs g st); auto. eapply Rest_done_any; eauto.
+    - (* error *)
+      match type of H with (if ?c then _ else _) = _ => destruct c; [discriminate|] end. inversion H; subst st'. clear H.
+      destruct P3 as (A & B & C). constructor; unfold all_jobs, fail in *; xs; auto.
+      all: try discriminate.
+      intros L R SD. destruct (CS3 L R SD) as (l' & EL & RS). exists l'. split; auto. rewrite NF3, PD3, PA3 in RS.
+      eapply (Rest_err _ ps0 p0); eauto.
+    - (* a block header *)
+      match type of H with (if ?c then _ else _) = _ => destruct c eqn:NB; [|discriminate] end. inversion H; subst st'. clear H.
+      apply cparse_ok; unfold masters, all_jobs, nparse in *; xs; auto.
+      + eapply inv_view; [|exact I3]. view_tac.
+      + rewrite PB3. exact NB.
+      + rewrite PB3. reflexivity.
+      + destruct P3 as (A & B & C). split; [|split]; unfold all_jobs in *; xs; auto.
+        apply Forall_forall. intros j Hj J. exfalso. rewrite (no_masters_jm s3 j) in J; [discriminate| |exact Hj].
+        unfold masters, all_jobs. exact M3.
+      + rewrite PB3. intros L R SD. destruct (CS3 L R SD) as (l' & EL & RS). exists l'. xs. split; auto.
+        rewrite NF3, PD3, PA3 in *. apply (Rest_push _ ps0 p0); auto.
+  Qed.
+
+  Theorem cinv_step cfg st e st' :
+    cfg_safe cfg -> inv st -> cinv st -> ev_ok O st e -> step cfg st e = Some st' -> cinv st'.
+  Proof.
+    intros CS I C EV H. unfold step in H. destruct (x_failed st) eqn:NF; [discriminate|].
+    destruct e.
+    - eapply cinv_input; eauto.
+    - eapply cinv_eof; eauto.
+    - eapply cinv_written; eauto.
+    - eapply cinv_parse0; eauto.
+    - eapply cinv_parse1; eauto.
+    - eapply cinv_retr0; eauto.
+    - eapply cinv_retr1; eauto.
+    - eapply cinv_retr2; eauto.
+    - eapply cinv_emit0; eauto.
+    - eapply cinv_emit1; eauto.
+    - eapply cinv_reorder; eauto.
+    - eapply cinv_scan0; eauto.
+    - eapply cinv_scan1; eauto.
+  Qed.
+
+  Lemma oreach_reach cfg s0 st : oreach O cfg s0 st -> reach cfg s0 st.
+  Proof. induction 1; [constructor|econstructor; eauto]. Qed.
+
+  Theorem cinv_oreach cfg n tin tout ultra st :
+    cfg_safe cfg -> oreach O cfg (init_state n tin tout ultra) st -> inv st /\ cinv st.
+  Proof.
+    intros CS R. induction R as [|st e st' R IH EV H].
+    - split; [apply inv_init|apply cinv_init].
+    - destruct IH as [I C]. split; [eapply inv_step; eauto|eapply cinv_step; eauto].
+  Qed.
+
+  (* C10: whatever the scanner reported, for every worker count, slot configuration,
+     input fragmentation and interleaving: what has been handed to the writer is a
+     prefix of the sequential decoding; a failing run means the sequential decoding
+     fails; a run that terminates normally has handed over exactly the sequential
+     decoding, which then succeeds. *)
+  Theorem speculation_free cfg n tin tout ultra st L R :
+    cfg_safe cfg -> oreach O cfg (init_state n tin tout ultra) st -> SeqDec O 0 0 L R ->
+    (exists l', L = x_written st ++ l') /\
+    (x_failed st <> None -> R = false) /\
+    (x_failed st = None -> x_parsing_done st = true -> x_order_q st = [] -> x_written st = L /\ R = true).
+  Proof.
+    intros CS RE SD. destruct (cinv_oreach _ _ _ _ _ _ CS RE) as [I C].
+    destruct (c_seq _ C L R SD) as (l' & EL & RS). split; [eauto|]. split.
+    - intro NF. destruct (x_failed st); [auto|congruence].
+    - intros NF PD OQ. rewrite NF, PD, OQ in RS. inversion RS; subst. rewrite app_nil_r. auto.
   Qed.
 End C10.
